@@ -65,11 +65,14 @@ def run_case(rs, ctx):
     chunks = [gen.slice_batch(data, bounds[i], bounds[i + 1]) for i in range(len(bounds) - 1)]
     A, B = gen.build(cfg), gen.build(cfg)
     wit = {"cfg": cfg, "data": data, "chunk_bounds": bounds}
+    # binary rewards may legally arrive as a boolean array
+    rd = "bool" if l == "ts" and rs.integers(3) == 0 else None
+    wit["reward_dtype"] = rd or "float"
     try:
-        gen.apply_op(A, dict(data, op="fit"))
-        gen.apply_op(B, dict(chunks[0], op="fit"))
+        gen.apply_op(A, dict(data, op="fit", r_dtype=rd))
+        gen.apply_op(B, dict(chunks[0], op="fit", r_dtype=rd))
         for c in chunks[1:]:
-            gen.apply_op(B, dict(c, op="partial_fit"))
+            gen.apply_op(B, dict(c, op="partial_fit", r_dtype=rd))
     except Exception as ex:  # noqa: BLE001
         ctx.violation("training raised %s: %s" % (type(ex).__name__, str(ex)[:100]), wit)
         return
